@@ -8,7 +8,7 @@ package main
 //
 // Linear scale: the answer is the key list itself, and the model answers with `scaleKeys` on the software binary64
 // (`f64Arith`) – the very definition the theorems legend_linear_f64 / legend_linear_f64_span_boundary /
-// legend_linear_f64_boundary are about.  The generator aims at the edge of the class of legend_linear_f64: spans around
+// legend_linear_f64_degenerate / legend_linear_f64_boundary are about.  The generator aims at the edge of the class of legend_linear_f64: spans around
 // floor(2^53/5) (the widest one whose products span*i are exact), ends around +-2^53 with a small span, ranges inside
 // +-2^49, degenerate and reversed ranges, the whole int64 range, other bucket counts (1 divides by float64(0)).
 // Log scales: math.Pow with a fractional exponent goes through amd64's assembly Exp, which is not ported – the harness
@@ -112,6 +112,11 @@ func c14SkeysCorpus() []string {
 		"skeys linear 6 0 9223372036854775296",
 		fmt.Sprintf("skeys linear 6 %d %d", int64(math.MinInt64), int64(math.MaxInt64)),
 		fmt.Sprintf("skeys linear 6 %d %d", int64(math.MaxInt64), int64(math.MaxInt64)),
+		// legend_linear_f64_degenerate / _boundary
+		"skeys linear 6 9007199254740992 9007199254740992",
+		"skeys linear 6 9007199254740991 7",
+		"skeys linear 6 -9007199254740992 -9007199254740992",
+		"skeys linear 6 5 -5",
 		"skeys linear 1 0 10",
 		"skeys linear 2 5 -5",
 		"skeys log2 6 0 1024",
